@@ -244,19 +244,19 @@ def system(tokens):
 @descriptor('counter-style', wants_base_url=True)
 def negative(tokens, base_url):
     """``negative`` descriptor validation."""
-    if len(tokens) > 2:
+    if not 1 <= len(tokens) <= 2:
         return
 
     values = []
-    tokens = list(tokens)
-    while tokens:
-        token = tokens.pop(0)
+    for token in tokens:
         if token.type in ('string', 'ident'):
             values.append(('string', token.value))
             continue
         url = get_url(token, base_url)
         if url is not None and url[0] == 'url':
             values.append(('url', url[1]))
+            continue
+        return
 
     if len(values) == 1:
         values.append(('string', ''))
